@@ -157,7 +157,7 @@ PROPS = {
     "C11": {
         "project": proj_c11,
         "level_text": "Theorems (Lean 4 kernel) about a model of schnorr/signature.go with BLAKE-256 as a parameter: verification returns nil EXACTLY when m is 32 bytes, Q is on the curve, e = BLAKE-256(r||m) < N and s*G + e*Q is a finite point with even y and x = r (via PointSpec, proved in C03); signing with a given nonce is the README algorithm (nonce negated when R.y is odd, e >= N reported, s = k - e*d); Sign refuses zero keys and wrong message lengths; the 64-byte codec accepts exactly length 64 with r < P, s < N and round-trips. Correspondence (BLAKE-256 answered from an oracle table filled by the real implementation): produced signatures, tampered r/s/m, wrong and off-curve keys, all message lengths, forced nonces through a hook incl. odd-y R and the nonce-not-negated variant, r >= P and s >= N encodings; each verification also compared with a textbook verifier over the affine specification.",
-        "level_note": "The field arithmetic that schnorrSign / schnorrVerify / ParseSignature performs outside the point routines is REGENERATED on every run (tools/gotr pass T2s) and checked on every path by the abstract interpreter (theorem *_field_arithmetic_exact in this property's file; limb-level meaning: C16 absS_limb_sound). PointSpec is proved in C03. BLAKE-256 is a parameter: its correctness is trusted; the e >= N retry branch (probability 2^-128) is covered by the theorem about the model and by the extracted control flow, not by a real-code execution. 'a produced signature verifies' is exercised on every produced signature by the run.",
+        "level_note": "schnorr.ParseSignature is additionally REGENERATED statement by statement on every run (pass T7) and PROVED equal to the model (schnorrParse_regenerated). The field arithmetic that schnorrSign / schnorrVerify / ParseSignature performs outside the point routines is REGENERATED on every run (tools/gotr pass T2s) and checked on every path by the abstract interpreter (theorem *_field_arithmetic_exact in this property's file; limb-level meaning: C16 absS_limb_sound). PointSpec is proved in C03. BLAKE-256 is a parameter: its correctness is trusted; the e >= N retry branch (probability 2^-128) is covered by the theorem about the model and by the extracted control flow, not by a real-code execution. 'a produced signature verifies' is exercised on every produced signature by the run.",
         "technique": "Lean 4 proof (Secp.Props.C11, PointSpec proved in C03) + differential correspondence with an oracle-table hash",
         "trusted_base": COMMON_TRUST + ["hand-written model mirrors the Go control flow; its point operations are the regenerated formula programs", "PointSpec (what the point routines compute) is a THEOREM: Secp.Props.C03.pointSpec, built on C04 (regenerated formula programs), the kernel-checked table, NAF/endomorphism lemmas and card E = N; it is about value-level execution of the regenerated programs - that limbs realise values is C05+C16"] + ["BLAKE-256 implementation (oracle)"],
         "assumptions": ["BLAKE-256 returns 32 bytes"],
@@ -200,7 +200,7 @@ PROPS = {
     "C07": {
         "project": proj_rec,
         "level_text": "Theorems (Lean 4 kernel): for arbitrary (r, s, code, hash) with 0 < r < N, s < N, code < 4 the model of RecoverPublicKey succeeds exactly when the textbook SEC1 4.1.6 procedure does and returns the same key (via the layer contract PointSpec, proved in C03); it panics exactly for the documented misuse (no recovery code); Export maps high s to (N-s, code xor 1) and leaves low s alone; both compact layouts carry exactly Export's triple; ParseCompactSignature inverts ExportCompact for headers 27/31. Correspondence: produced signatures through object/Export/ExportCompact (both layouts, offsets 27, 31, 0)/SignCompact/RecoverCompact, high-s twins with their flipped codes (the F1 defect, now fixed, is caught here), all four codes, r around P-N with and without the overflow bit, x not on the curve, headers 0..255, r/s boundary values.",
-        "level_note": "The field arithmetic that RecoverPublicKey performs outside the point routines is REGENERATED on every run (tools/gotr pass T2s) and checked on every path by the abstract interpreter (theorem *_field_arithmetic_exact in this property's file; limb-level meaning: C16 absS_limb_sound). PointSpec is proved in C03. 'a returned key verifies the signature' and 'recovering from a produced signature returns the signer' are group-law consequences (Secp.Proofs.SpecGroup) exercised on every produced signature by the correspondence run.",
+        "level_note": "ParseCompactSignature is additionally REGENERATED statement by statement on every run (pass T7) and PROVED equal to the model (parseCompact_regenerated). The field arithmetic that RecoverPublicKey performs outside the point routines is REGENERATED on every run (tools/gotr pass T2s) and checked on every path by the abstract interpreter (theorem *_field_arithmetic_exact in this property's file; limb-level meaning: C16 absS_limb_sound). PointSpec is proved in C03. 'a returned key verifies the signature' and 'recovering from a produced signature returns the signer' are group-law consequences (Secp.Proofs.SpecGroup) exercised on every produced signature by the correspondence run.",
         "technique": "Lean 4 proof (Secp.Props.C07, PointSpec proved in C03) + differential correspondence incl. export/recover round trips",
         "trusted_base": COMMON_TRUST + ["Model.Ecdsa mirrors signature.go (hand-written control flow; point operations are the regenerated formula programs)", "PointSpec (scalar multiplication / addition / ToAffine / DecompressY compute the affine group law) is a THEOREM: Secp.Props.C03.pointSpec; every conditional theorem has an unconditional corollary in the same Props file"],
         "assumptions": [],
@@ -242,7 +242,7 @@ PROPS = {
     },
     "C08": {
         "level_text": "Machine-checked theorems (Lean 4 kernel, Mathlib ZMod P with a Pratt-certificate proof that P is prime) for ALL byte strings about a hand-written model of ParsePubKey / Serialize* / schnorr.ParsePubKey: never panics; accepts exactly the valid SEC1 compressed/uncompressed/hybrid encodings of curve points with coordinates < P (using Euler's criterion for the square-root test and that -7 is not a cube mod P), returns that very point, never an off-curve key; each error kind names a rule really violated; all serialise/parse round trips incl. byte-for-byte reproduction of canonical inputs. Tied to the code by a correspondence run: all 256 tag bytes x both lengths, lengths 0..70, x >= P, non-residue x, flipped / mismatched-parity / off-curve y, bit flips; every op is also compared with a specification-level verdict computed independently of the model.",
-        "level_note": "The field arithmetic that ParsePubKey and the serialisers performs outside the point routines is REGENERATED on every run (tools/gotr pass T2s) and checked on every path by the abstract interpreter (theorem *_field_arithmetic_exact in this property's file; limb-level meaning: C16 absS_limb_sound). Trusted: Lean kernel + Mathlib definitions of ZMod/IsSquare; hand-written model mirrors pubkey.go (validated on generated inputs); field arithmetic inside the parser is modelled at value level (x, y as naturals mod P) - the limb level is C05/C16.",
+        "level_note": "ParsePubKey is additionally REGENERATED statement by statement on every run (pass T7) and PROVED equal to the model (parsePubKey_regenerated). The field arithmetic that ParsePubKey and the serialisers performs outside the point routines is REGENERATED on every run (tools/gotr pass T2s) and checked on every path by the abstract interpreter (theorem *_field_arithmetic_exact in this property's file; limb-level meaning: C16 absS_limb_sound). Trusted: Lean kernel + Mathlib definitions of ZMod/IsSquare; hand-written model mirrors pubkey.go (validated on generated inputs); field arithmetic inside the parser is modelled at value level (x, y as naturals mod P) - the limb level is C05/C16.",
         "technique": "Lean 4 proof over a hand-written model (Secp.Props.C08) + differential correspondence with ParsePubKey and an independent spec oracle",
         "project": proj_c08,
         "trusted_base": COMMON_TRUST + ["Mathlib ZMod / Euler criterion", "Model.parsePubKey mirrors pubkey.go (hand-written)"],
@@ -257,8 +257,8 @@ PROPS = {
     },
     "C09": {
         "level_text": "Machine-checked theorems (Lean 4 kernel) for ALL byte strings about a hand-written model of ParseDERSignature/Serialize: never panics; accepts exactly the canonical DER of (r,s) in [1,N-1]^2 and returns those values; length 8..72; uniqueness; serialise = canonical DER of (r, low-s); both round trips; every error kind names a really violated rule. The model is tied to the code by a correspondence run (structure-aware mutations of valid encodings, all lengths 0..80) diffed against the real parser.",
-        "level_note": "Trusted: Lean kernel (axioms propext, Classical.choice, Quot.sound); that the hand-written model mirrors signature.go (validated only on generated inputs); scalar decoding inside the parser modelled at value level (limb level is C06).",
-        "technique": "Lean 4 proof over a hand-written model (Secp.Props.C09) + differential correspondence with the Go parser",
+        "level_note": "ParseDERSignature is additionally REGENERATED statement by statement on every run (tools/gotr pass T7, Secp.Gen.BytesProg.parseDER) and PROVED equal to the model (parseDER_regenerated), so the iff / no-panic / error-soundness theorems hold for what the source says now. Trusted: Lean kernel (axioms propext, Classical.choice, Quot.sound); that the hand-written model mirrors signature.go (validated only on generated inputs); scalar decoding inside the parser modelled at value level (limb level is C06).",
+        "technique": "Lean 4 proof over a model that is proved equal to the parser regenerated from the Go source (pass T7) + differential correspondence with the Go parser",
         "project": proj_c09,
         "trusted_base": COMMON_TRUST + ["Model.parseDER / serializeDER mirror signature.go ParseDERSignature / Serialize (hand-written)"],
         "assumptions": ["scalar decoding inside the parser is modelled at value level (SetByteSlice = reduce once); the limb-level kernel is C06's concern"],
